@@ -73,8 +73,12 @@ Assigned(c, s, a) == \E v \in c.vips : v.name = AdvertisedName(s, a) /\ v.peer =
 \* connect-native instance (its own), a terminating gateway (one address per linked service)
 AdvertisedVipCurrentProxy(c) == \A s \in c.svcs : \A a \in ToSet(s.adv) : (a.svc = "" /\ s.kind = "connect-proxy") => Assigned(c, s, a)
 AdvertisedVipCurrentOwn(c) == \A s \in c.svcs : \A a \in ToSet(s.adv) : (a.svc = "" /\ s.kind # "connect-proxy") => Assigned(c, s, a)
-AdvertisedVipCurrentGateway(c) == \A s \in c.svcs : \A a \in ToSet(s.adv) : a.svc # "" => Assigned(c, s, a)
-AdvertisedVipCurrent(c) == AdvertisedVipCurrentProxy(c) /\ AdvertisedVipCurrentOwn(c) /\ AdvertisedVipCurrentGateway(c)
+\* a gateway's per-service address: while the gateway's config entry links the service ...
+Linked(c, s, a) == \E e \in c.tgw : e.gw = s.name /\ (a.svc \in ToSet(e.svcs) \/ "*" \in ToSet(e.svcs))
+AdvertisedVipCurrentGateway(c) == \A s \in c.svcs : \A a \in ToSet(s.adv) : (a.svc # "" /\ Linked(c, s, a)) => Assigned(c, s, a)
+\* ... and after the link is gone (the entry was deleted: an update that drops a service strips the address itself)
+AdvertisedVipStaleGatewayLink(c) == \A s \in c.svcs : \A a \in ToSet(s.adv) : (a.svc # "" /\ ~Linked(c, s, a)) => Assigned(c, s, a)
+AdvertisedVipCurrent(c) == AdvertisedVipCurrentProxy(c) /\ AdvertisedVipCurrentOwn(c) /\ AdvertisedVipCurrentGateway(c) /\ AdvertisedVipStaleGatewayLink(c)
 
 (* step property: deregistering a node / service leaves nothing of it behind *)
 CascadeComplete(pre, post) ==
